@@ -221,7 +221,13 @@ class _ChainStep(_ChainNode):
 
 
 def _cp_inv(e):
-    return wrap_bool(tm.Iff(CP(e.entry.node.id), CP(e.node.id)))
+    # the node the walk stands on: the loop-carried local of the node class (whatever it is called)
+    here = [v for k, v in vars(e).items() if isinstance(v, _ChainNode) and v is not e.entry.node and k != "entry"]
+    if not here:
+        here = [e.entry.node]  # loop entry: the walk stands on the node it was given
+    if len({id(v) for v in here}) != 1:
+        return False
+    return wrap_bool(tm.Iff(CP(e.entry.node.id), CP(here[0].id)))
 
 
 @contract("stepup/core/workflow.py::Workflow._creator_chain_pending", props=["C19", "C11"], impl=_chain_pending)
@@ -234,7 +240,7 @@ class creator_chain_pending:
     ensures = lambda node, result, old: wrap_bool(tm.Iff(B(result), CP(old.node.id)))
     result = ty.Bool
     modifies = []
-    loops = {0: LoopSpec(invariant=_cp_inv, locals=dict(node=ty.Make(_ChainNode)))}
+    loops = {0: LoopSpec(invariant=_cp_inv, locals={"@_ChainNode": ty.Make(_ChainNode)})}
 
 
 def _member(targets, p) -> tm.T:
